@@ -503,6 +503,36 @@ func c07Body(c *core.Ctx) {
 					c.Violate(idx, r.Key, r.What, map[string]any{"scenario": sc.Name, "kill_at": t.k, "tear": t.tear, "syscall": res.Events[t.k-1], "acked_ops": nAck, "script": sc.Script})
 				}
 			}
+			if len(rs) == 0 {
+				// what the NEXT run of the DAG does first: the retention clean-up (with a period no
+				// run has reached, it must remove nothing); then everything is asked again
+				scK := rewrite(scLocal, kroot)
+				dags := map[string]bool{}
+				for _, o := range append(append([]wOp{}, scK.Prior...), scK.Script...) {
+					if o.Dag != "" {
+						dags[o.Dag] = true
+					}
+					if o.To != "" {
+						dags[o.To] = true
+					}
+				}
+				func() {
+					defer func() { _ = recover() }()
+					cdb := jsondb.New(filepath.Join(kroot, "data"), false)
+					for d := range dags {
+						_ = cdb.RemoveOld(d, 3650)
+					}
+				}()
+				rs2, nob2 := c07Judge(filepath.Join(kroot, "data"), scK, nAck, true, where+"|after-the-next-run's-clean-up")
+				c.Count("obligations", int64(nob2))
+				c.Count("clean_ups_after_a_kill", 1)
+				for _, r := range rs2 {
+					if !seen[r.Key] {
+						seen[r.Key] = true
+						c.Violate(idx, r.Key, r.What, map[string]any{"scenario": sc.Name, "kill_at": t.k, "tear": t.tear, "syscall": res.Events[t.k-1], "acked_ops": nAck, "script": sc.Script, "then": "RemoveOld(3650 days) by a fresh store, as the next run does at its start"})
+					}
+				}
+			}
 			c.Sig(sc.Name, t.k, t.tear)
 			if si%5 == 0 && t.k == 3 {
 				c.Sample(map[string]any{"scenario": sc.Name, "kill_at": t.k, "of": N, "syscall": res.Events[t.k-1], "acked_ops": nAck, "script": sc.Script})
@@ -520,7 +550,7 @@ func init() {
 			return []core.Pass{{Name: "main", Mode: "kill", Shards: 16, Timeout: 60 * time.Minute}}
 		},
 		Exhaustive: func(tier string) bool { return true },
-		Rule:       "A recording worker process (the harness binary calling the real jsondb) first builds a prior history of completed runs (5 (7) priors over 1-2 DAG files: none, one run, runs aged 10/40 days, same-100-ms runs, a long history of 14 runs) and then executes a script: {Open, 1-2 (1-3) Write, Close-with-compaction} with 200 B (and 9 KB, two-syscall) status lines, {Update of an older run}, {Rename}, {RemoveOld 7 days}, {Update then a new run}. The ptrace supervisor sysgate numbers every watched system call of the script phase under the data directory (openat-w, write, fsync, close, unlinkat, renameat, mkdirat) and the check ENUMERATES them: the worker is SIGKILLed before EVERY call k, and every write is additionally torn at 1/2 (thorough: 1 byte, 1/4, 1/2, L-1) of its length and then killed. The worker acknowledges each completed operation on a pipe. Oracle on the surviving directory with a fresh store: every previously completed run is returned by FindByRequestID with its last write id (during an un-acked Update old or new; during an un-acked Rename under the old or the new name, never neither; during an un-acked RemoveOld only runs older than the retention may be missing); the interrupted run is returned with a write id >= the last acknowledged; ReadStatusToday answers without error and not with a run older than acknowledged data; ReadStatusRecent(n) contains every run with acknowledged data (a run listed twice pushes another out); no query panics. exhaustive=true refers to the enumeration of system-call boundaries of these scripts. Non-trivial = each kill that was delivered. Distinct = (scenario, k, tear).",
+		Rule:       "A recording worker process (the harness binary calling the real jsondb) first builds a prior history of completed runs (5 (7) priors over 1-2 DAG files: none, one run, runs aged 10/40 days, same-100-ms runs, a long history of 14 runs) and then executes a script: {Open, 1-2 (1-3) Write, Close-with-compaction} with 200 B (and 9 KB, two-syscall) status lines, {Update of an older run}, {Rename}, {RemoveOld 7 days}, {Update then a new run}. The ptrace supervisor sysgate numbers every watched system call of the script phase under the data directory (openat-w, write, fsync, close, unlinkat, renameat, mkdirat) and the check ENUMERATES them: the worker is SIGKILLed before EVERY call k, and every write is additionally torn at 1/2 (thorough: 1 byte, 1/4, 1/2, L-1) of its length and then killed. The worker acknowledges each completed operation on a pipe. Oracle on the surviving directory with a fresh store: every previously completed run is returned by FindByRequestID with its last write id (during an un-acked Update old or new; during an un-acked Rename under the old or the new name, never neither; during an un-acked RemoveOld only runs older than the retention may be missing); the interrupted run is returned with a write id >= the last acknowledged; ReadStatusToday answers without error and not with a run older than acknowledged data; ReadStatusRecent(n) contains every run with acknowledged data (a run listed twice pushes another out); no query panics; then a fresh store runs the retention clean-up the next run of the DAG starts with (a period no run has reached) and every query is asked again. exhaustive=true refers to the enumeration of system-call boundaries of these scripts. Non-trivial = each kill that was delivered. Distinct = (scenario, k, tear).",
 		Assumptions: []string{"SIGKILL loses user-space buffers but not the page cache; power loss / fsync ordering is out of scope of the statement",
 			"crash points are the system-call boundaries of the recording process under the data directory"}})
 }
